@@ -212,6 +212,40 @@ theorem C10_retry_only_on_net_errs (cfg : Cfg) (h : DnsH) (sock e ns : Nat) (sc 
   · exact ⟨rfl, rfl⟩
   · simp only [hne, Bool.false_eq_true, if_false, and_self]
 
+/-- **Per-query socket state stays small.** A handler listens on at most one resolver socket:
+after its creation, and again after a receive error on that socket (which removes it before any
+retry), for every script of picks and socket-call outcomes.  All per-query state (`socks`, `peers`,
+`tries`) lives in the handler record, which `SSys.round` drops at the start of the round after
+`ok` became false (answer relayed, or deadline passed at a sweep).  That CPython then closes the
+descriptors of the dropped record is the runtime's doing and is checked by the harness's
+resource oracle, not by a theorem. -/
+theorem C10_one_live_socket (cfg : Cfg) (now hid chan : Nat) (request : Bytes) (ns : Nat) (sc : Script)
+    (h : DnsH) (sock e : Nat) (hs : h.socks = [sock]) :
+    (dnsProxyNew cfg now hid chan request ns sc).h.socks.length ≤ 1 ∧
+    (dnsCallback cfg h sock (.err e) ns sc).h.socks.length ≤ 1 := by
+  constructor
+  · have t := trySend_ok cfg (cfg.maxTries + 1)
+      { hid := hid, chan := chan, deadline := now + cfg.srvDnsHorizonS * cfg.ticksPerS, request := request } ns sc
+    have h1 := t.socks
+    have h2 := t.sends_le
+    unfold dnsProxyNew
+    rw [h1]
+    simp only [List.nil_append, List.length_map]
+    exact h2
+  · unfold dnsCallback
+    split
+    · rw [hs]; simp
+    · split
+      · have t := trySend_ok cfg (cfg.maxTries + 1)
+          { h with socks := h.socks.erase sock, peers := erase sock h.peers } ns sc
+        have h1 := t.socks
+        have h2 := t.sends_le
+        simp only at h1 ⊢
+        rw [h1, hs]
+        simp only [List.erase_cons_head, List.nil_append, List.length_map]
+        exact h2
+      · simp only [hs, List.erase_cons_head, List.length_nil, Nat.zero_le]
+
 /-! ## 4. Release -/
 
 /-- **Released when answered.** After the first frame on a query's id has been handled, the id
